@@ -81,10 +81,12 @@ def build(case):
         cfg['raise_by_content'] = True
     if sub == 'c11':
         cfg['growth'] = False
+        cfg['send_pauses'] = False
         cfg['raise_by_content'] = True
         for life in sc['lives']:
             if life['end'] in ('sever_halfopen', 'ping_timeout',
-                               'sdisc_ping_expired', 'emit_ping_expired'):
+                               'sdisc_ping_expired', 'emit_ping_expired',
+                               'sdisc_race_sever'):
                 life['end'] = 'sever'
     if sub == 'c12':
         cfg['mem'] = False
